@@ -403,6 +403,8 @@ func c05(r *core.Run) {
 	r.Rule("E3", "verbatim error replies: in every error-reply funnel (a function taking an *Error and handing a payload to the reply path) each payload is the json.Marshal output of a value holding that very *Error, or - only on the marshal-failure edge - a static literal; a static literal chosen by the error's code would replace a custom message or data with the generic text", 2)
 	r.Rule("E2", "static outcomes: no-resource and get-without-handler reply with the notFound literal, unknown call/auth method with the methodNotFound literal, a handler that returned without replying reaches the fallback that replies with an internalError literal; literals carry the matching Code* constant", 6)
 
+	r.Rule("M8", "the handler gets the payload that arrived (shared with C07.P10 / C18.V11): no function appends onto a truncated prefix of a slice it was handed - a trace helper shortening a large request payload that way overwrites the message's bytes before they are parsed, so a large request is answered with an error (or decoded params differ) instead of reaching its handler with what the client sent", 1)
+	c07NoAppendIntoForeignPrefix(r, "M8", []string{"", "resprot"})
 	root := p.FuncsOfPkg("")
 	if sa := resolveSvc(r, "M6"); sa.ok {
 		c01Restart(r, "M6", sa, root)
